@@ -422,7 +422,10 @@ def stage_complex(ctx):
 
 
 # --- stage: operator / ufunc expression trees --------------------------------------------------------
-NUMS = [0, 1, -1, 2, 0.5, 3, -2.5, 0.0, 1.0, 4, 0.75, -0.125, 10, 3.0, -3, 0.25]
+NUMS = [0, 1, -1, 2, 0.5, 3, -2.5, 0.0, 1.0, 4, 0.75, -0.125, 10, 3.0, -3, 0.25,
+        # small but non-zero, and close to but not equal to one (lengths in metres, scale factors): only EXACT 0 and 1 are
+        # special in Prior.__add__ / __mul__
+        2.0 ** -21, -2.0 ** -22, 1 + 2.0 ** -21, 1 - 2.0 ** -22, 2.0 ** 21]
 U1N = ["UNeg", "USquare", "UAbs", "URecip", "USqrt", "UExp", "ULog"]
 U2N = ["UAdd", "USub", "UMul", "UDiv", "UMax", "UMin"]
 BIN = ["add", "sub", "mul", "div", "pow", "u2"]
@@ -1084,7 +1087,9 @@ def stage_explore(ctx):
             key = "ks:gaussian"
         else:
             mu, sd = dyd(rng, -4, 4), dyd(rng, -4, 4, signed=False)
-            a, b = rng.choice([(0.5, 0.5), (1, 2), (0.25, INF), (INF, 0.5), (2, 0.125)])
+            # incl. intervals much narrower than sd (a prior that pins a parameter): the sampler has to keep resampling
+            opts = [(2.0 ** -9, 2.0 ** -9), (0.5, 0.5), (1, 2), (2.0 ** -8, 2.0 ** -11), (0.25, INF), (INF, 0.5), (2, 0.125)]
+            a, b = opts[(k // 3) % len(opts)]          # every kind in turn, a narrow one first
             lo, hi = mu - a * sd, mu + b * sd
             p = BoundedGaussian(mu, sd, lo, hi)
             cdf = stats.truncnorm(-a, b, loc=mu, scale=sd).cdf
@@ -1098,6 +1103,13 @@ def stage_explore(ctx):
             ctx.violation(KNOWN_OOB if m == 2 else "sampler:uniform-support",
                           "%d of %d samples of %r (size=%r, seed %d) lie outside the support" % (nout, len(xs), desc, size, seed),
                           dict(kind="bg-oob-many", prior=desc, seed=seed, size=size, n=len(xs), outside=nout))
+        # a continuous distribution: (almost) no repeated values, none piled up on a bound
+        ndup = int(len(xs) - len(np.unique(xs)))
+        if ndup > max(3, len(xs) // 500):
+            ctx.violation((KNOWN_OOB + ":pile-up") if m == 2 else "sampler:repeats",
+                          "%d of %d samples of %r (size=%r, seed %d) are repeated values (%d exactly on a bound)"
+                          % (ndup, len(xs), desc, size, seed, int(np.sum((xs == lo) | (xs == hi)))),
+                          dict(kind="ks", prior=desc, seed=seed, size=size, n=len(xs), repeated=ndup))
         pv = float(stats.kstest(xs, cdf).pvalue)
         if pv < 1e-6:
             ctx.violation(key if m == 2 else key, "samples of %r (size=%r, seed %d, n=%d) do not follow the declared distribution: KS p=%.3g"
